@@ -478,3 +478,253 @@ T("C01", "independent writer assignments reordered", "module.py",
         proto_module.isa = self.isa.value""",
   """        proto_module.isa = self.isa.value
         proto_module.binary_path = self.binary_path""")
+
+# ---------------------------------------------------------------------------
+# C05
+F("C05", "ByteBlock.size becomes a plain attribute", "block.py",
+  """    size = _IndexedAttribute[int]()(lambda self: self.byte_interval)
+""", "", "R05.1")
+F("C05", "offset notifies the section instead of the interval", "block.py",
+  """    offset = _IndexedAttribute[int]()(lambda self: self.byte_interval)""",
+  """    offset = _IndexedAttribute[int]()(lambda self: self.section)""", "R05.1")
+F("C05", "descriptor stores before discarding", "util.py",
+  """            parent = self.parent_getter(instance)
+            if parent:
+                parent._index_discard(instance)
+            setattr(instance, self.attribute_name, value)
+            parent = self.parent_getter(instance)""",
+  """            setattr(instance, self.attribute_name, value)
+            parent = self.parent_getter(instance)
+            if parent:
+                parent._index_discard(instance)
+            parent = self.parent_getter(instance)""", "R05.2")
+F("C05", "descriptor never re-adds", "util.py",
+  """            parent = self.parent_getter(instance)
+            if parent:
+                parent._index_add(instance)""", """            pass""", "R05.2")
+F("C05", "_BlockSet.update forgets the index", "byteinterval.py",
+  """            self._node._index_add_multiple(self._data, new_items)
+""", "", "R05.3")
+F("C05", "_BlockSet.discard forgets the index", "byteinterval.py",
+  """            self._node._index_discard(v)
+            v._byte_interval = None""", """            v._byte_interval = None""", "R05.3")
+F("C05", "code_blocks_at filters the 'on' lookup", "byteinterval.py",
+  """            b for b in self.byte_blocks_at(addrs) if isinstance(b, CodeBlock)""",
+  """            b for b in self.byte_blocks_on(addrs) if isinstance(b, CodeBlock)""", "R05.5")
+F("C05", "IR.data_blocks_on delegates to code blocks", "ir.py",
+  """            m.data_blocks_on(addrs) for m in self.modules""",
+  """            m.code_blocks_on(addrs) for m in self.modules""", "R05.5")
+F("C05", "_offset_interval drops the +1", "util.py",
+  """        node.offset, node.offset + node.size + 1, node""",
+  """        node.offset, node.offset + node.size, node""", "R05.6")
+F("C05", "byte_blocks_at uses the 'on' helper", "byteinterval.py",
+  """        return _nodes_at_interval_tree(
+            self._interval_tree.get(), addrs, -self.address
+        )""", """        return _nodes_on_interval_tree(
+            self._interval_tree.get(), addrs, -self.address
+        )""", "R05.4")
+F("C05", "byte_blocks_on forgets the address shift", "byteinterval.py",
+  """        return _nodes_on_interval_tree(
+            self._interval_tree.get(), addrs, -self.address
+        )""", """        return _nodes_on_interval_tree(
+            self._interval_tree.get(), addrs
+        )""", "R05.4")
+F("C05", "byte_blocks_on_offset searches by address", "byteinterval.py",
+  """        return _nodes_on_interval_tree_offset(
+            self._interval_tree.get(), offsets
+        )""", """        return _nodes_on_interval_tree(
+            self._interval_tree.get(), offsets
+        )""", "R05.4")
+F("C05", "Section.byte_blocks_at asks children for 'on'", "section.py",
+  """            yield from interval.byte_blocks_at(addrs)""", """            yield from interval.byte_blocks_on(addrs)""", "R05.5")
+F("C05", "data_blocks_on_offset filters code blocks", "byteinterval.py",
+  """            for b in self.byte_blocks_on_offset(offsets)
+            if isinstance(b, DataBlock)""", """            for b in self.byte_blocks_on_offset(offsets)
+            if isinstance(b, CodeBlock)""", "R05.5")
+F("C05", "_index_discard of ByteInterval is a no-op", "byteinterval.py",
+  """        self._interval_tree.discard(block)""", """        pass""", "R05.2")
+F("C05", "zero-size filter loses the bias", "util.py",
+  """        if not node_interval.length() - 1:""", """        if not node_interval.length():""", "R05.6")
+T("C05", "lookup rewritten as a plain scan", "byteinterval.py",
+  """        return _nodes_at_interval_tree_offset(
+            self._interval_tree.get(), offsets
+        )""", """        rng = get_desired_range(offsets)
+        return [b for b in self.blocks if b.offset in rng]""")
+T("C05", "module lookup as a generator function", "module.py",
+  """        return itertools.chain.from_iterable(
+            s.byte_blocks_on(addrs) for s in self.sections
+        )""", """        for s in self.sections:
+            yield from s.byte_blocks_on(addrs)""")
+
+# ---------------------------------------------------------------------------
+# C06
+F("C06", "ByteInterval.address notifies the module", "byteinterval.py",
+  """    address = _IndexedAttribute[typing.Optional[int]]()(
+        lambda self: self.section
+    )""", """    address = _IndexedAttribute[typing.Optional[int]]()(
+        lambda self: self.module
+    )""", "R05.1")
+F("C06", "Section.size guard only tests non-empty", "section.py",
+  """        index = self._interval_index.get()
+        if 0 < len(index) == len(self.byte_intervals):
+            return index.span() - 1""", """        index = self._interval_index.get()
+        if 0 < len(index):
+            return index.span() - 1""", "R06.3")
+F("C06", "_ByteIntervalSet.add forgets the index", "section.py",
+  """            self._node._index_add(v)
+            v._section = self._node""", """            v._section = self._node""", "R05.3")
+F("C06", "Module.sections_at uses nodes_on", "module.py",
+  """        return nodes_at(self.sections, addrs)""", """        return nodes_on(self.sections, addrs)""", "R06.2")
+F("C06", "Section.size forgets the bias", "section.py",
+  """            return index.span() - 1""", """            return index.span()""", None)
+F("C06", "Section.address returns the highest end", "section.py",
+  """            return index.begin()""", """            return index.end()""", "R06.3")
+F("C06", "IR.byte_intervals_at delegates to 'on'", "ir.py",
+  """            m.byte_intervals_at(addrs) for m in self.modules""",
+  """            m.byte_intervals_on(addrs) for m in self.modules""", "R06.1")
+F("C06", "Section.byte_intervals_at uses the 'on' helper", "section.py",
+  """        return _nodes_at_interval_tree(self._interval_index.get(), addrs)""",
+  """        return _nodes_on_interval_tree(self._interval_index.get(), addrs)""", "R06.1")
+F("C06", "empty section has address 0", "section.py",
+  """        index = self._interval_index.get()
+        if 0 < len(index) == len(self.byte_intervals):
+            return index.begin()""", """        index = self._interval_index.get()
+        if len(index) == len(self.byte_intervals):
+            return index.begin()""", "R06.3")
+T("C06", "extent guard through a local", "section.py",
+  """        index = self._interval_index.get()
+        if 0 < len(index) == len(self.byte_intervals):
+            return index.begin()""", """        index = self._interval_index.get()
+        if len(index) > 0 and len(index) == len(self.byte_intervals):
+            return index.begin()""")
+
+# ---------------------------------------------------------------------------
+# C10
+F("C10", "Symbol.name becomes a plain attribute", "symbol.py",
+  """    name = _IndexedAttribute[str]()(lambda self: self.module)
+""", "", "R10.1")
+F("C10", "value setter bypasses the descriptor", "symbol.py",
+  """    def value(self, value: typing.Optional[int]) -> None:
+        self._payload = value""", """    def value(self, value: typing.Optional[int]) -> None:
+        self.__dict__["__payload"] = value""", "R10.1")
+F("C10", "_index_discard forgets the referent index", "module.py",
+  """            if node.referent:
+                symbol_set = self._symbol_referent_index[node.referent]
+                symbol_set.discard(node)
+                if not symbol_set:
+                    del self._symbol_referent_index[node.referent]
+""", "", "R10.2")
+F("C10", "references consults the first module of the IR", "block.py",
+  """        symbol_set = self.module._symbol_referent_index.get(self)""",
+  """        symbol_set = self.ir.modules[0]._symbol_referent_index.get(self)""", "R10.4")
+F("C10", "_index_add keyed by node.value", "module.py",
+  """            if node.referent:
+                self._symbol_referent_index[node.referent].add(node)""",
+  """            if node.value:
+                self._symbol_referent_index[node.value].add(node)""", "R10.2")
+F("C10", "_NodeSet.add forgets the index", "module.py",
+  """            v._module = self._node
+            self._node._index_add(v)""", """            v._module = self._node""", "R10.3")
+F("C10", "_NodeSet.discard forgets the index", "module.py",
+  """            v._module = None
+            self._node._index_discard(v)""", """            v._module = None""", "R10.3")
+F("C10", "symbols_named reads the referent index", "module.py",
+  """        symbols = self._symbol_name_index.get(name, None)""",
+  """        symbols = self._symbol_referent_index.get(name, None)""", "R10.4")
+F("C10", "payload notifies the IR", "symbol.py",
+  """    _payload = _IndexedAttribute[typing.Optional[Payload]]()(
+        lambda self: self.module
+    )""", """    _payload = _IndexedAttribute[typing.Optional[Payload]]()(
+        lambda self: self.ir
+    )""", "R10.1")
+F("C10", "name index shared between modules", "module.py",
+  """        self._symbol_name_index: typing.MutableMapping[
+            str, typing.Set[Symbol]
+        ] = collections.defaultdict(set)""", """        self._symbol_name_index = _SHARED_NAME_INDEX""", None)
+T("C10", "symbols_named as a filter over self.symbols", "module.py",
+  """        symbols = self._symbol_name_index.get(name, None)
+        if symbols:
+            yield from symbols""", """        for s in self.symbols:
+            if s.name == name:
+                yield s""")
+
+# ---------------------------------------------------------------------------
+# C11
+F("C11", "add without the absence guard", "cfg.py",
+  """        if edge not in self:
+            self._nxg.add_edge(edge.source, edge.target, label=edge.label)""",
+  """        self._nxg.add_edge(edge.source, edge.target, label=edge.label)""", "R11.2")
+F("C11", "discard removes an arbitrary parallel edge", "cfg.py",
+  """            self._nxg.remove_edge(edge.source, edge.target, key=key)""",
+  """            self._nxg.remove_edge(edge.source, edge.target)""", "R11.2")
+F("C11", "_edge_key compares labels by identity", "cfg.py",
+  """if "label" in e and e["label"] == edge.label:""", """if "label" in e and e["label"] is edge.label:""", "R11.2")
+F("C11", "ProxyBlock in/out swapped", "block.py",
+  """    @property
+    def incoming_edges(self) -> typing.Iterator["Edge"]:
+        ir = self.ir
+        if ir is None:
+            return iter(())
+        return ir.cfg.in_edges(self)
+
+    @property
+    def outgoing_edges(self) -> typing.Iterator["Edge"]:
+        ir = self.ir
+        if ir is None:
+            return iter(())
+        return ir.cfg.out_edges(self)
+
+    @property
+    def ir(self)""", """    @property
+    def incoming_edges(self) -> typing.Iterator["Edge"]:
+        ir = self.ir
+        if ir is None:
+            return iter(())
+        return ir.cfg.out_edges(self)
+
+    @property
+    def outgoing_edges(self) -> typing.Iterator["Edge"]:
+        ir = self.ir
+        if ir is None:
+            return iter(())
+        return ir.cfg.in_edges(self)
+
+    @property
+    def ir(self)""", "R11.4")
+F("C11", "__len__ counts nodes", "cfg.py",
+  """        return len(self._nxg.edges())""", """        return len(self._nxg.nodes())""", "R11.2")
+F("C11", "in_edges yields reversed edges", "cfg.py",
+  """            for s, t, l in self._nxg.in_edges(node, data="label"):
+                yield Edge(s, t, l)""", """            for s, t, l in self._nxg.in_edges(node, data="label"):
+                yield Edge(t, s, l)""", "R11.4")
+F("C11", "add drops the label", "cfg.py",
+  """            self._nxg.add_edge(edge.source, edge.target, label=edge.label)""",
+  """            self._nxg.add_edge(edge.source, edge.target)""", "R11.2")
+F("C11", "out_edges uses the in view", "cfg.py",
+  """            for s, t, l in self._nxg.out_edges(node, data="label"):""",
+  """            for s, t, l in self._nxg.in_edges(node, data="label"):""", "R11.4")
+F("C11", "discard keyed by the first parallel edge", "cfg.py",
+  """        key = self._edge_key(edge)
+        if key is not None:""", """        key = 0
+        if key is not None:""", "R11.2")
+F("C11", "a helper mutates the multigraph behind the set", "cfg.py",
+  """    def out_edges(self, node: CfgNode) -> Iterator[Edge]:""",
+  """    def replace_node(self, old: CfgNode, new: CfgNode) -> None:
+        self._nxg.add_node(new)
+        self._nxg.remove_node(old)
+
+    def out_edges(self, node: CfgNode) -> Iterator[Edge]:""", "R11.1")
+F("C11", "EdgeLabel equality ignores direct", "cfg.py",
+  """    def __repr__(self) -> str:
+        return (
+            "Edge.Label(""", """    def __eq__(self, other: object) -> bool:
+        return isinstance(other, EdgeLabel) and self.type == other.type
+
+    def __repr__(self) -> str:
+        return (
+            "Edge.Label(""", "R11.5")
+T("C11", "add guarded through _edge_key", "cfg.py",
+  """        if edge not in self:
+            self._nxg.add_edge(edge.source, edge.target, label=edge.label)""",
+  """        if self._edge_key(edge) is None:
+            self._nxg.add_edge(edge.source, edge.target, label=edge.label)""")
